@@ -4,6 +4,8 @@ package blockchain
 
 import (
 	"bytes"
+
+	"github.com/LiskHQ/lisk-engine/pkg/db"
 )
 
 // C05.e: blockCache.push / pop on an arbitrary well-formed small cache.
@@ -113,3 +115,71 @@ func zzH_C05_block_cache_push_pop(t *zzT) {
 	t.ObserveU64("size", uint64(c.size))
 	t.Reach("end")
 }
+
+// C05 "any number of apply/remove steps" (and C19: a sync walks the tip back to the common block with the
+// peer, which may be further back than the block cache reaches): a chain of n blocks on a node whose block
+// cache holds c of them; r tip removals, r possibly larger than c. After every removal the node still has a
+// tip — the block at the height below, complete — the removed heights are no longer served, and a sibling
+// can be appended on the new tip.
+//
+//zz:opt loop=200 require=beyond-cache,within-cache
+//zz:quick N=5
+//zz:thorough N=7
+func zzH_C05_remove_beyond_cache(t *zzT) {
+	N := t.Param("N", 5)
+	n := t.Range("blocks", 2, N)
+	c := t.Range("cache", 1, 3)
+	r := t.Range("removals", 1, n-1)
+	database, err := db.NewInMemoryDB()
+	if err != nil {
+		t.Fail("db")
+	}
+	blocks := []*Block{}
+	prev := bytes.Repeat([]byte{0}, 32)
+	for i := 0; i < n; i++ {
+		b := zz20Block(uint32(i), prev, i%2)
+		blocks = append(blocks, b)
+		prev = b.Header.ID
+	}
+	chain := NewChain(&ChainConfig{ChainID: []byte{0, 0, 0, 1}, MaxTransactionsLength: 1000, MaxBlockCache: c, KeepEventsForHeights: -1})
+	chain.Init(blocks[0], database)
+	for _, b := range blocks {
+		if err := chain.AddBlock(database.NewBatch(), b, nil, 0, false); err != nil {
+			t.Fail("setup: AddBlock")
+		}
+	}
+	for k := 1; k <= r; k++ {
+		err := chain.RemoveBlock(database.NewBatch(), false)
+		t.Assert(err == nil, "removing a tip above the genesis block succeeds")
+		tip := chain.LastBlock()
+		want := blocks[n-1-k]
+		t.Assert(tip != nil, "after a removal the node still has a tip (also when more blocks were removed than the block cache holds)")
+		if tip == nil {
+			return
+		}
+		t.Assert(tip.Header.Height == want.Header.Height && bytes.Equal(tip.Header.ID, want.Header.ID) && len(tip.Transactions) == len(want.Transactions), "the tip after a removal is the complete block below the removed one")
+		_, gone := chain.DataAccess().GetBlockHeaderByHeight(blocks[n-k].Header.Height)
+		t.Assert(gone != nil, "a removed height is no longer served")
+	}
+	// a sibling on the new tip
+	tip := chain.LastBlock()
+	sib := zz20Block(tip.Header.Height+1, tip.Header.ID, 1)
+	sib.Header.StateRoot = bytes.Repeat([]byte{0x77}, 32)
+	sib.Header.Init()
+	t.Assert(chain.AddBlock(database.NewBatch(), sib, nil, 0, false) == nil, "a sibling can be appended after the removals")
+	last := chain.LastBlock()
+	t.Assert(last != nil && bytes.Equal(last.Header.ID, sib.Header.ID), "the appended sibling is the tip")
+	if r >= c {
+		t.Reach("beyond-cache")
+	} else {
+		t.Reach("within-cache")
+	}
+}
+
+// C19 "a node offered a better valid chain … ends on that chain": block sync removes tips down to the
+// common block, which may lie further back than the block cache reaches (same obligation as above).
+//
+//zz:opt loop=200 require=beyond-cache,within-cache
+//zz:quick N=5
+//zz:thorough N=7
+func zzH_C19_remove_beyond_cache(t *zzT) { zzH_C05_remove_beyond_cache(t) }
